@@ -279,6 +279,13 @@ func (x *Exec) Getattr(r Ref) error {
 	return nil
 }
 
+// scribble overwrites a request buffer after the reply has arrived, as a transport that pools its buffers does.
+func scribble(b []byte) {
+	for i := range b {
+		b[i] ^= 0xa5
+	}
+}
+
 // Setattr: size nil = don't set. touch sets mode/uid/gid/times as well.
 func (x *Exec) Setattr(r Ref, size *uint64, touch bool) error {
 	var a nt.Sattr3
@@ -318,11 +325,26 @@ func (x *Exec) Setattr(r Ref, size *uint64, touch bool) error {
 		want = false
 	}
 	var res nt.SETATTR3res
-	if err := x.call(func() { res = x.S.API().NFSPROC3_SETATTR(nt.SETATTR3args{Object: r.fh(), New_attributes: a}) }); err != nil {
+	var before, after nt.GETATTR3res
+	refusedLive := !want && r.N != nil
+	if err := x.call(func() {
+		if refusedLive {
+			before = x.S.API().NFSPROC3_GETATTR(nt.GETATTR3args{Object: r.fh()})
+		}
+		res = x.S.API().NFSPROC3_SETATTR(nt.SETATTR3args{Object: r.fh(), New_attributes: a})
+		if refusedLive {
+			after = x.S.API().NFSPROC3_GETATTR(nt.GETATTR3args{Object: r.fh()})
+		}
+	}); err != nil {
 		return err
 	}
 	if err := x.status(res.Status, want, r); err != nil {
 		return err
+	}
+	if refusedLive && res.Status != nt.NFS3_OK && before.Status == nt.NFS3_OK && (after.Status != nt.NFS3_OK || before.Resok.Obj_attributes != after.Resok.Obj_attributes) {
+		// a refused request changes nothing, whatever other attributes it carried along with the offending one
+		return x.errf("SETATTR was refused (status %d) but changed the object's attributes: before %+v, after (status %d) %+v",
+			res.Status, before.Resok.Obj_attributes, after.Status, after.Resok.Obj_attributes)
 	}
 	if want && x.LastOK {
 		if size != nil {
@@ -452,6 +474,7 @@ func (x *Exec) Write(r Ref, off uint64, data []byte, cntField uint32, stable nt.
 	if err := x.call(func() { res = x.S.API().NFSPROC3_WRITE(arg) }); err != nil {
 		return err
 	}
+	scribble(arg.Data) // the request buffer belongs to the transport again (it is reused for the next message)
 	cnt := uint64(cntField)
 	want := r.N != nil && r.N.Kind == nt.NF3REG && cnt <= x.M.Lim.WtMax && cnt <= uint64(len(data)) &&
 		off+cnt >= off && off+cnt <= x.M.Lim.MaxFileSize
